@@ -8,7 +8,7 @@ from pathlib import Path
 KNOWN_FLAKY = {"fs_copyfile", "tcp_connect_timeout", "tcp_close_while_connecting", "getnameinfo_basic_ip6",
                "tcp6_ping_pong", "pipe_ping_pong_vec"}
 def sh(cmd, **kw):
-    return subprocess.run(cmd, stdout=subprocess.PIPE, stderr=subprocess.STDOUT, text=True, **kw)
+    return subprocess.run(cmd, stdout=subprocess.PIPE, stderr=subprocess.STDOUT, text=True, errors="replace", **kw)
 def main():
     pid, n = sys.argv[1], sys.argv[2]
     suite = "--no-suite" not in sys.argv
